@@ -53,8 +53,7 @@
  (let ((?x84 (to_real ?x62)))
  (and (distinct ?x84 0.0) true))))
 (assert
- (let (($x104 (= running_a!4 1)))
- (not $x104)))
+ (not (= running_a!4 1)))
 (assert
  (let ((?x62 (+ running_a!4 running_b!9)))
 (let ((?x97 (- ?x62 1)))
